@@ -55,6 +55,7 @@ class TimeoutFamily:
         times = sorted(t for t in times if t > 0 and all(abs(t - L) >= 500 or t == L for L in limits))
         answer_at = rng.choice([None, None] + list(range(len(times) + 1)))
         ops = [{'op': 'start', 'mid': 'm1', 'vars': {'pid': 'p1'}}, {'op': 'quiesce'}, {'op': 'snapshot', 'level': snap}]
+        bystanders = 0
         raced_at = answer_at if (answer_at is not None and answer_at < len(times) and rng.random() < opts.get('race', 0.3)) else None
         for i, t in enumerate(times):
             if raced_at == i:
@@ -69,13 +70,21 @@ class TimeoutFamily:
                 # a new engine on the same database takes over; the client's next look at the task loads the process
                 ops += [{'op': 'restart'}, {'op': 'quiesce'}]
             ops += [{'op': 'advance_to', 'target': target, 'ms': t}]
+            gone = False
             if opts.get('store') == 'sqlite':
                 if rng.random() < 0.2:
                     ops += [{'op': 'restart'}, {'op': 'quiesce'}]     # ... or nobody looks at it before the tick
+                    gone = True
             elif opts.get('evict', True) and rng.random() < 0.35:
                 # the process is not in the cache when the tick comes: dropped by a full LRU (its instance is alive: the
                 # rules go on counting), or forgotten altogether (like after a restart: the known finding)
                 ops.append({'op': 'lru_drop', 'pid': 'p1'} if rng.random() < 0.5 else {'op': 'evict'})
+                gone = ops[-1]['op'] == 'evict'
+            if gone and rng.random() < 0.5:
+                # ... but another process ends before the tick: the engine then fills its cache with the processes
+                # that wait in the store, the timed one among them
+                bystanders += 1
+                ops += [{'op': 'start', 'mid': 'mt', 'vars': {'pid': f'q{bystanders}'}}, {'op': 'quiesce'}]
             ops += [{'op': 'tick'}, {'op': 'snapshot', 'level': snap}]
         if answer_at == len(times):
             ops += [{'op': 'act', 'target': {'pid': 'p1', 'key': 'k1', 'state': 'interrupted'}, 'action': 'next'}, {'op': 'quiesce'}]
@@ -86,6 +95,8 @@ class TimeoutFamily:
         if raced_at is not None:
             rt = {'flavor': 'multi', 'workers': 2, 'chaos': {'max_yields': 2, 'pause_us': rng.choice([0, 30, 100, 300]), 'seed': rng.randrange(1, 1 << 40)}}
         sc = {'id': '', 'family': 'timeout', 'sched': rt['flavor'] + ('-raced' if raced_at is not None else ''), 'runtime': rt, 'engine': {'store': opts.get('store', 'mem'), 'keep_processes': True}, 'models': [json.dumps(wf)], 'responder': {'rules': []}, 'ops': ops}
+        if bystanders:
+            sc['models'].append(json.dumps({'id': 'mt', 'steps': [{'id': 'st', 'acts': [{'id': 'at', 'uses': MSG, 'key': 'mt'}]}]}))
         if opts.get('store') == 'sqlite':
             sc['watchdog_ms'] = 90000
             sc['sched'] += '-sqlite'
@@ -150,9 +161,9 @@ class TimeoutFamily:
                     # the state at the beginning of this tick comes from the transition trace, not from a (possibly older) dump
                     st_ = [e['new'] for e in h.states if e['nid'] == nid and e['seq'] < lo]
                     task['state'] = st_[-1] if st_ else 'none'
-                root_ = [e['new'] for e in h.states if e['tid'] == '$' and e['seq'] < lo]
+                root_ = [e['new'] for e in h.states if e['tid'] == '$' and e['pid'] == 'p1' and e['seq'] < lo]
                 proc_running = bool(root_) and root_[-1] == 'running'
-                if raced and any(e['tid'] == '$' and lo < e['seq'] < hi and e['new'] in TERM for e in h.states):
+                if raced and any(e['tid'] == '$' and e['pid'] == 'p1' and lo < e['seq'] < hi and e['new'] in TERM for e in h.states):
                     proc_running = False          # the racing call ended the process inside this window: nothing has to fire
                 if task is not None:
                     s = task['start_time']
@@ -174,6 +185,9 @@ class TimeoutFamily:
                         if now_fired:
                             done.add(on)
                             obs['c19.firings'] += 1
+                            prior = [op_ for op_ in sc['ops'][:o['i']] if op_['op'] in ('evict', 'restart', 'act', 'advance_to', 'start')]
+                            if len(prior) >= 2 and prior[-1]['op'] == 'start' and prior[-1].get('mid') == 'mt' and prior[-2]['op'] in ('evict', 'restart'):
+                                obs['c19.firings-after-the-end-of-another-process-restored-the-forgotten-one'] += 1
                             if must_not:
                                 others = sorted(ms(x) for x in ons if ms(x) <= ta - s)
                                 out.append(V('C19', 'fired-early', f"{m['level']}:{'another-rule-due' if others else 'nothing-due'}", f"rule {on} fired after {ta - s} ms (limit {L} ms)", scenario=sid))
@@ -186,6 +200,8 @@ class TimeoutFamily:
                                     cached = False          # a new engine does not load running processes by itself either
                                 elif op_['op'] in ('act', 'advance_to'):
                                     cached = True       # looking the task up / acting on it reloads the process
+                                elif op_['op'] == 'start' and op_.get('mid') == 'mt':
+                                    cached = True       # the end of another process: waiting processes come back from the store
                             out.append(V('C19', 'not-fired-when-due', m['level'] + ('' if cached else ':process-not-cached-at-tick'), f"rule {on} did not fire at a tick {tb - s} ms after the task opened (limit {L} ms, task {task['state']})", scenario=sid))
                         else:
                             obs['c19.not-due'] += 1
